@@ -174,7 +174,11 @@ def mibdump_case(world, fmt, extra, sig):
         if not want_bad and code != 0:
             v('exit-%s-although-nothing-missing-or-failed' % code, 'reference %r' % ref['allowed'])
         rep = parse_report(stderr)
-        for m, allowed in sorted(ref['allowed'].items()):
+        if '--quiet' in extra:
+            if any(names is not None for names in rep.values()):
+                v('report-printed-despite-quiet', '')
+            rep = None
+        for m, allowed in sorted(ref['allowed'].items()) if rep is not None else ():
             where = [s for s, names in rep.items() if names and m in names]
             if len(where) != 1 or where[0] not in allowed:
                 v('module-reported-under-%s-where-%s' % ('+'.join(where) or 'nothing', '/'.join(sorted(allowed))), 'module %s' % m)
@@ -195,7 +199,7 @@ def mibdump_case(world, fmt, extra, sig):
             has_index = os.path.exists(os.path.join(dst, 'index.json'))
             if has_index and opts['dryRun']:
                 v('index-written-in-dry-run', '')
-        return (code, tuple(sorted((k, tuple(n or ())) for k, n in rep.items()))), vs, 1
+        return (code, tuple(sorted((k, tuple(n or ())) for k, n in (rep or {}).items()))), vs, 1
     finally:
         shutil.rmtree(root, ignore_errors=True)
 
@@ -229,6 +233,9 @@ def option_subsets(tier):
     yield {}, ['--build-index']
     yield {'dryRun': True}, ['--build-index']
     yield {'ignoreErrors': True}, ['--build-index']
+    yield {}, ['--quiet']
+    yield {'ignoreErrors': True}, ['--quiet']
+    yield {'noDeps': True}, ['--quiet']
 
 
 class MibDump(object):
